@@ -241,6 +241,10 @@ def build_ops(doc, want_types):
                         targs.append(None)
         if tname == "IndexMut" and owner.kind == "glam" and "Output" not in assoc:
             assoc["Output"] = T("prim", name=VEC[owner.name][0])
+        if tname == "PartialEq" and owner.kind == "glam" and not targs:
+            specials.setdefault(owner.name, set()).add(("PartialEq", ""))
+        if tname == "Clone" and owner.kind == "glam":
+            specials.setdefault(owner.name, set()).add(("Clone", ""))
         if tname in SPECIAL_TRAITS:
             if owner.kind == "glam":
                 arg = targs[0].show() if targs and targs[0] is not None else ""
@@ -493,6 +497,13 @@ def gen_extras(start, want_types, specials):
                         it = "core::iter::empty::<&glam::%s>()" % t if byref else "core::iter::empty::<glam::%s>()" % t
                     add("<%s as %s<%s>>::%s over %d items" % (t, tr, arg or "Self", m, k), t, m, [g] * k, [g],
                         "%s    let r: glam::%s = %s.%s();\n    vec![V::into_val(r)]" % (lets, t, it, m), names)
+        # provided trait methods that an impl may override behind the back of the required one
+        if has("PartialEq"):
+            add("<%s as PartialEq>::ne (a != b)" % t, t, "ne", [g, g], ["Ty::S(Elem::Bool)"],
+                "    let x: glam::%s = V::from_val(&a[0]);\n    let y: glam::%s = V::from_val(&a[1]);\n    #[allow(clippy::partialeq_ne_impl)]\n    let r = x != y;\n    vec![Val::Bool(r)]" % (t, t), ["a", "b"])
+        if has("Clone"):
+            add("<%s as Clone>::clone_from" % t, t, "clone_from", [g, g], [g],
+                "    let mut x: glam::%s = V::from_val(&a[0]);\n    let y: glam::%s = V::from_val(&a[1]);\n    x.clone_from(&y);\n    vec![V::into_val(x)]" % (t, t), ["self", "source"])
         if has("Hash"):
             add("<%s as Hash>::hash" % t, t, "hash", [g], ["Ty::S(Elem::U64)"],
                 "    let s: glam::%s = V::from_val(&a[0]);\n    vec![Val::U64(crate::ops::hash_of(&s))]" % t, ["self"])
